@@ -107,6 +107,43 @@ theorem checkpoint_monotone (sp : Spec) (f : Facts) (r : RunRes) (ms : List (Nat
     (rec : Rec) (pc : RPc) (h : resRes sp f r = .put ms rec pc) : r.rc.progress ≤ rec.progress :=
   resRes_put_progress h
 
+/-! ## same_outcome (partial): nothing is skipped -/
+
+/-- FULL: for every schedule with stops the run reaches the same terminal state, the same set of
+    resolved contracts and the same set of upstream resolutions as the uninterrupted run.
+    PROVED: for every interleaving and every stop schedule that does not stop while the durable
+    state is StateContractClosed (`noStopInClosed`; the uninterrupted run is one such schedule),
+    the channel is marked fully resolved only after EVERY stateful contract of the closed channel
+    has been resolved and deleted by its resolver.  MISSING: that the run with stops terminates
+    at all (`stuck_after_stop_between_checkpoint_and_delete`), the excluded window itself
+    (`same_outcome_fails_contract_skipped`), and completeness of the upstream dust failures. -/
+theorem same_outcome_partial (sp : Spec) (hcoop : sp.CoopClean) (s : Sys)
+    (h : Reach sp noStopInClosed s) (hc : s.chan.fullyClosed = true) :
+    ∀ c ∈ sp.contracts, c.kind.persisted = true → c.key ∈ s.resolvedKeys := by
+  intro c hcm hp
+  have hk := (reach_invK hcoop h).k1 (Or.inr (Or.inr (Or.inr hc))) c hcm hp
+  have hempty := (reach_inv h).done (Or.inr hc)
+  rcases hk with hk | hk
+  · simp [Log.keys, hempty] at hk
+  · exact hk
+
+/-- two terminated runs of the same scenario (e.g. one with stops outside the window and the
+    uninterrupted one) resolved the same contracts and never contradict each other upstream. -/
+theorem same_outcome_of_terminated_runs (sp : Spec) (hcoop : sp.CoopClean)
+    (hu : Spec.Unambiguous sp) (s₁ s₂ : Sys)
+    (h₁ : Reach sp noStopInClosed s₁) (h₂ : Reach sp noStopInClosed s₂)
+    (hc₁ : s₁.chan.fullyClosed = true) (hc₂ : s₂.chan.fullyClosed = true) :
+    (∀ c ∈ sp.contracts, c.kind.persisted = true →
+        (c.key ∈ s₁.resolvedKeys ↔ c.key ∈ s₂.resolvedKeys)) ∧
+    (s₁.log.contracts = [] ∧ s₂.log.contracts = []) ∧
+    (∀ i b b', (i, b) ∈ s₁.msgs → (i, b') ∈ s₂.msgs → b = b') := by
+  refine ⟨?_, ⟨(reach_inv h₁).done (Or.inr hc₁), (reach_inv h₂).done (Or.inr hc₂)⟩, ?_⟩
+  · intro c hcm hp
+    exact ⟨fun _ => same_outcome_partial sp hcoop s₂ h₂ hc₂ c hcm hp,
+           fun _ => same_outcome_partial sp hcoop s₁ h₁ hc₁ c hcm hp⟩
+  · intro i b b' m1 m2
+    exact hu i b b' (reach_msgsOk h₁ _ m1) (reach_msgsOk h₂ _ m2)
+
 /-! ## witnesses: where the full statements fail (all reproduced on the real code) -/
 
 /-- our own force close (chain trigger, one htlc inside the broadcast window so that a
@@ -201,6 +238,19 @@ example : Spec.Unambiguous specNear := by
   simp [expectedMsgs, specNear, failMsgs, Contract.upstream, RKind.isHtlc] at h1 h2
   rcases h1 with ⟨rfl, rfl⟩ | ⟨rfl, rfl⟩ <;> rcases h2 with ⟨h, rfl⟩ | ⟨h, rfl⟩ <;> first | rfl | omega
 
+example : Spec.CoopClean specFar := by intro h; cases h
+
+/-- a run with a stop in StateWaitingFullResolution (outside the window) that terminates:
+    hypotheses of `same_outcome_partial` are satisfiable with a real stop. -/
+def stoppedOk : Sys :=
+  run specFar init (toClosedFar ++
+    [.main, .main, .fact (.spend1 1000), .res 1000, .res 1000, .crash, .main,
+     .fact (.height 141), .res 10, .fact (.spend1 10), .res 10, .crash, .main,
+     .fact (.spend2 10), .res 10, .res 10, .main, .main, .main, .main])
+
+example : stoppedOk.chan.fullyClosed = true ∧ stoppedOk.crashes = 2 ∧
+    stoppedOk.resolvedKeys = [10, 1000] ∧ stoppedOk.msgs = [(20, false), (10, false)] := by decide
+
 /-- the schedules used above are reachable states. -/
 theorem run_reach (sp : Spec) : ∀ (acts : List Action) (s : Sys),
     Reach sp anySchedule s → Reach sp anySchedule (run sp s acts) := by
@@ -221,15 +271,23 @@ def allowedB (s : Sys) : Action → Bool
   | .resAlt _ => s.log.state != .contractClosed
   | _ => true
 
-theorem allowedB_sound {s : Sys} {a : Action} (h : allowedB s a = true) : noResInClosed s a := by
+theorem allowedB_sound (s : Sys) (a : Action) (h : allowedB s a = true) : noResInClosed s a := by
   cases a <;> simp_all [allowedB, noResInClosed]
 
-def runAllowed (sp : Spec) : Sys → List Action → Bool
-  | _, [] => true
-  | s, a :: rest => allowedB s a && runAllowed sp ((step sp s a).getD s) rest
+def stopOkB (s : Sys) : Action → Bool
+  | .crash => s.log.state != .contractClosed
+  | _ => true
 
-theorem run_reach_nores (sp : Spec) : ∀ (acts : List Action) (s : Sys),
-    Reach sp noResInClosed s → runAllowed sp s acts = true → Reach sp noResInClosed (run sp s acts) := by
+theorem stopOkB_sound (s : Sys) (a : Action) (h : stopOkB s a = true) : noStopInClosed s a := by
+  cases a <;> simp_all [stopOkB, noStopInClosed]
+
+def runAllowed (sp : Spec) (ok : Sys → Action → Bool) : Sys → List Action → Bool
+  | _, [] => true
+  | s, a :: rest => ok s a && runAllowed sp ok ((step sp s a).getD s) rest
+
+theorem run_reach_of (sp : Spec) (H : Sys → Action → Prop) (ok : Sys → Action → Bool)
+    (hsound : ∀ s a, ok s a = true → H s a) : ∀ (acts : List Action) (s : Sys),
+    Reach sp H s → runAllowed sp ok s acts = true → Reach sp H (run sp s acts) := by
   intro acts
   induction acts with
   | nil => intro s h _; exact h
@@ -241,14 +299,18 @@ theorem run_reach_nores (sp : Spec) : ∀ (acts : List Action) (s : Sys),
     | none => rw [hs] at hal; simpa [hs] using ih s h hal.2
     | some s' =>
       rw [hs] at hal
-      simpa [hs] using ih s' (Reach.step h (allowedB_sound hal.1) hs) hal.2
+      simpa [hs] using ih s' (Reach.step h (hsound _ _ hal.1) hs) hal.2
 
 def sReexec : Sys := run specNear init (toWindow ++ [.crash])
 
-example : Reach specNear noResInClosed sReexec := run_reach_nores _ _ _ .init (by decide)
+example : Reach specNear noResInClosed sReexec :=
+  run_reach_of _ _ _ allowedB_sound _ _ .init (by decide)
 
 example :
     sReexec.pc = .adv ∧ advRes specNear sReexec = .insert [] [] ∧ sReexec.log.contracts.length = 2 := by
   decide
+
+example : Reach specFar noStopInClosed stoppedOk :=
+  run_reach_of _ _ _ stopOkB_sound _ _ .init (by decide)
 
 end LndModel.C13.Props
